@@ -13,6 +13,7 @@ TRUSTED_BASE = [
     "axioms allowed in any property theorem: propext, Classical.choice, Quot.sound (audited by #print-axioms-style collection on every run)",
     "harness/extract.py regenerates lean/Acra/Gen/*.lean (constants, struct formats, tables) from /repo on every run",
     "harness/translate.py translates the current source of the pure helper functions of the SRC tables to lean/Acra/Gen/Src/*.lean on every run (restricted subset, refuses anything else; semantics in lean/Acra/Py/IntOps.lean); the theorems src_* tie each translation to the hand-written model for all inputs",
+    "harness/translate_methods.py translates whole codec methods (pack / unpack / __eq__ of the classes of the METHODS tables) state-passing to lean/Acra/Gen/Src/Cls/*.lean on every run, over an object structure generated from __init__ under the typing assumption that every carried attribute holds a value of its declared type (never None); the theorems src_<Class>_<method> (Props/Cxx/SrcTieCls.lean) tie each to the hand-written model for all objects in the model's domain and all buffers",
     "hand-written Lean models are tied to the code only by the differential correspondence check on the operations generated in this run",
     "the Lean driver's line parser/printer and harness/core.py canonicalisation",
     "little-endian host for native-order struct codes; zlib.crc32 = IEEE 802.3 CRC-32; socket.inet_aton/ntoa = dotted quad; sorted() stable",
